@@ -103,9 +103,11 @@ CHECKS["C18"] = {
 
 CHECKS["C19"] = {
     "category": "model_checking",
-    "technique": "TLA+ FetchQueue.tla checked by TLC (safety + NoLostWakeup liveness); TLC trace validation (TraceFetch.tla) of a seeded driver of the real gossip::fetch::Queue",
+    "technique": "TLA+ FetchQueue.tla checked by TLC (safety + NoLostWakeup liveness); TLC trace validation (TraceFetch.tla) of a seeded driver of the real gossip::fetch::Queue; GossipFetch.tla checked by TLC and every scripted peer it enumerates replayed against a real running node (T2)",
     "text": "Every interleaving of request/cancel/announce/accept/complete/fail of the bounded model; on the code every hand-out must be an enabled spec "
-            "action (announced, lowest, once), the pending set must equal the spec's at every quiescent point, and no idle peer may be left unserved.",
+            "action (announced, lowest, once), the pending set must equal the spec's at every quiescent point, and no idle peer may be left unserved. End to end: a real node "
+            "fetching from a peer that announces a range and answers right / another number / a forged payload / nothing asks only for announced numbers and, once an honest peer is "
+            "there, ends up with every block.",
     "note": "Single-threaded runtime with quiescence between commands; real multi-threaded interleavings are not controlled. One live requester per block.",
     "design_ref": "§7 C19",
 }
@@ -157,10 +159,10 @@ CHECKS["C12"] = {
 
 CHECKS["C14"] = {
     "category": "model_checking",
-    "technique": "TLA+ Mux.tla (reusable-stream protocol) checked by TLC; per-stream records of two real Muxes over a fragmenting transport evaluated by TLC (TraceMux.tla) + flood scenario",
+    "technique": "TLA+ Mux.tla (reusable-stream protocol) checked by TLC; per-stream records of two real Muxes over a fragmenting transport evaluated by TLC (TraceMux.tla) + flood scenarios (DATA flood by a real Mux, OPEN/CLOSE flood by a raw peer)",
     "text": "Design: isolation, local end-of-stream and matching incarnations for every interleaving of the OPEN/DATA/CLOSE protocol on one stream id. Code: "
             "concurrent transient streams with self-identifying payloads (some abandoned half-read) must pair one-to-one within a capability, complete and "
-            "intact both ways; open streams per capability <= min of the announced limits; bytes pulled from the transport under a flood stay within the buffers.",
+            "intact both ways; open streams per capability <= min of the announced limits; bytes pulled from the transport under a DATA flood stay within the buffers, frames pulled under a control-frame flood within read_frame_count.",
     "note": "Thread schedules are perturbed, not controlled; the adversarial peer is a non-cooperating real Mux (protocol-violating frames belong to C10); limits 1..3, 3 capabilities.",
     "design_ref": "§7 C14",
 }
@@ -180,7 +182,8 @@ CHECKS["C17"] = {
     "category": "model_checking",
     "technique": "TLA+ Scope.tla checked by TLC over every schedule of every bounded task-tree program; the spec's per-program outcome sets compared with the real scope::run! on a multi-threaded runtime (T2)",
     "text": "For each program the model yields the exact set of outcomes the scope may return (ok / which error / panic) under any schedule; the real scope must stay "
-            "within it over many perturbed runs, must have joined every task when it returns, and may never hang when all tasks can finish (cancellation reaches waiting tasks).",
+            "within it over many perturbed runs, must have joined every task when it returns, and may never hang when all tasks can finish (cancellation reaches waiting tasks). In a fifth of the runs the waker "
+            "given to ctx.canceled() stalls the cancelling thread, so that a failure recorded only after the cancellation it caused loses the race.",
     "note": "Program space: <= 2 (quick) / 3 (thorough) tasks, no nested scopes / blocking tasks; real thread schedules are perturbed, not controlled; no concurrency hook was needed.",
     "design_ref": "§7 C17",
 }
